@@ -357,8 +357,42 @@ def replace_all_uses_with(
         replacements = (replacements,)
     if len(values) != len(replacements):
         raise ValueError("The number of values and replacements must match.")
+    _check_replace_all_uses_with(values, replacements, replace_graph_outputs)
     for value, replacement in zip(values, replacements):
         value.replace_all_uses_with(replacement, replace_graph_outputs=replace_graph_outputs)
+
+
+def _check_replace_all_uses_with(values, replacements, replace_graph_outputs: bool) -> None:
+    """Validate every (value, replacement) pair before any use is replaced.
+
+    The only steps of ``Value.replace_all_uses_with`` that can be rejected concern graph outputs.
+    The ownership changes made by earlier pairs (a replacement becomes an output of the graph, the
+    replaced value stops being one) are tracked so that later pairs are judged as they will be.
+    """
+    # pylint: disable=protected-access
+    is_output: dict = {}
+    owner: dict = {}
+    for value, replacement in zip(values, replacements):
+        if not is_output.get(value, value.is_graph_output()):
+            continue
+        graph = owner.get(value, value._graph)
+        if not replace_graph_outputs:
+            raise ValueError(
+                f"{value!r} is an output of graph {graph.name!r}. "
+                "Set replace_graph_outputs=True or replace the graph output frist before "
+                "calling replace_all_uses_with."
+            )
+        replacement_owner = owner.get(replacement, replacement._graph)
+        if replacement_owner is not None and replacement_owner is not graph:
+            raise ValueError(
+                f"Value '{replacement}' is already an output of a different graph. Please remove the value from the previous graph first"
+            )
+        if replacement is value:
+            continue
+        is_output[value] = False
+        owner[value] = graph if (value.is_graph_input() or value.is_initializer()) else None
+        is_output[replacement] = True
+        owner[replacement] = graph
 
 
 def rename_values(
